@@ -192,3 +192,210 @@ theorem rawOf_get_lt (d : Dfa) (p : List Nat) {s : Nat} (hs : s < (getStates d).
       List.getElem?_eq_getElem hs, Option.map_some, Option.getD_some]
 
 end Logos.FromDfa
+
+namespace Logos.FromDfa
+open Logos Logos.Passes
+
+/-! ### what a raw state is, in terms of the DFA -/
+
+/-- **the raw graph's byte transitions are the DFA's**, the dead state meaning "no edge" -/
+theorem rawOf_next {d : Dfa} (hc : Closed d) (p : List Nat) {id b : Nat} (hid : id ∈ getStates d) (hb : b < 256) :
+    ((rawOf d p).get ((getStates d).idxOf id)).next b =
+      if d.nextId id b == 0 then none else some ((getStates d).idxOf (d.nextId id b)) := by
+  rw [rawOf_get d p hid]
+  have := next_edgesOf (getStates d).length (targets d (fun x => (getStates d).idxOf x) id)
+    (targets_length _ _ _) b hb (by
+      intro t ht
+      rw [targets_getD _ _ _ _ hb] at ht
+      split at ht
+      · cases ht
+      · cases ht; exact idx_lt (hc.next_mem hid hb))
+  rw [targets_getD _ _ _ _ hb] at this
+  exact this
+
+theorem rawOf_eoi (d : Dfa) (p : List Nat) {id : Nat} (hid : id ∈ getStates d) :
+    ((rawOf d p).get ((getStates d).idxOf id)).eoi =
+      if d.eoiId id == 0 then none else some ((getStates d).idxOf (d.eoiId id)) := by
+  rw [rawOf_get d p hid]; rfl
+
+theorem rawOf_accept (d : Dfa) (p : List Nat) {id : Nat} (hid : id ∈ getStates d) :
+    ((rawOf d p).get ((getStates d).idxOf id)).accept = acceptOf p (d.matchingOf id) := by
+  rw [rawOf_get d p hid]; rfl
+
+theorem rawOf_early (d : Dfa) (p : List Nat) (s : Nat) : ((rawOf d p).get s).early = none := by
+  by_cases hs : s < (getStates d).length
+  · obtain ⟨id, _, h⟩ := rawOf_get_lt d p hs
+    rw [h]; rfl
+  · rw [get_ge _ _ (by rw [rawOf_size]; omega)]
+
+/-- the state has a byte edge exactly when some byte does not lead to the dead state -/
+theorem rawOf_normal_isEmpty {d : Dfa} (hc : Closed d) (p : List Nat) {id : Nat} (hid : id ∈ getStates d) :
+    ((rawOf d p).get ((getStates d).idxOf id)).normal.isEmpty =
+      !(List.range 256).any fun b => d.nextId id b != 0 := by
+  rw [rawOf_get d p hid]
+  simp only [rawState]
+  rw [Bool.eq_iff_iff]
+  simp only [List.isEmpty_iff, Bool.not_eq_true', List.any_eq_false, List.mem_range, bne_iff_ne, ne_eq,
+    Decidable.not_not]
+  constructor
+  · intro h b hb
+    refine Decidable.byContradiction fun hne => ?_
+    have hmem : some ((getStates d).idxOf (d.nextId id b)) ∈ targets d (fun x => (getStates d).idxOf x) id := by
+      have := targets_getD d (fun x => (getStates d).idxOf x) id b hb
+      rw [List.getD_eq_getElem?_getD, List.getElem?_eq_getElem (by rw [targets_length]; exact hb)] at this
+      simp only [Option.getD_some, beq_iff_eq, hne, if_false] at this
+      rw [← this]; exact List.getElem_mem _
+    have : ({ ranges := classFor (fun b' => (targets d (fun x => (getStates d).idxOf x) id).getD b' none ==
+        some ((getStates d).idxOf (d.nextId id b))), target := (getStates d).idxOf (d.nextId id b) } : Edge) ∈
+        edgesOf (getStates d).length (targets d (fun x => (getStates d).idxOf x) id) :=
+      mem_edgesOf.2 ⟨_, idx_lt (hc.next_mem hid hb), hmem, rfl⟩
+    rw [h] at this
+    cases this
+  · intro h
+    apply List.eq_nil_iff_forall_not_mem.2
+    intro e he
+    obtain ⟨t, _, hm, _⟩ := mem_edgesOf.1 he
+    obtain ⟨b, hb⟩ := List.mem_iff_getElem?.1 hm
+    have hb256 : b < 256 := by
+      have := (List.getElem?_eq_some_iff.1 hb).1
+      rw [targets_length] at this; exact this
+    have := targets_getD d (fun x => (getStates d).idxOf x) id b hb256
+    rw [List.getD_eq_getElem?_getD, hb] at this
+    simp only [Option.getD_some, h b hb256, beq_self_eq_true, if_true] at this
+    cases this
+
+/-! ### three side conditions of the pass theorems hold by construction -/
+
+theorem rawOf_noEarly (d : Dfa) (p : List Nat) : rawNoEarly (rawOf d p) = true := by
+  simp only [rawNoEarly, List.all_eq_true, List.mem_range]
+  intro s _
+  rw [rawOf_early]; rfl
+
+theorem rawOf_edgesDisjoint (d : Dfa) (p : List Nat) : edgesDisjoint (rawOf d p) = true := by
+  rw [edgesDisjoint_iff]
+  intro s hs b _
+  rw [rawOf_size] at hs
+  obtain ⟨id, _, h⟩ := rawOf_get_lt d p hs
+  rw [h]
+  exact edgesOf_disjoint _ _ b
+
+theorem rawOf_refsInside {d : Dfa} (hc : Closed d) (p : List Nat) : refsInside (rawOf d p) = true := by
+  rw [refsInside_iff]
+  refine ⟨by rw [rawOf_size, rawOf_root]; exact idx_lt hc.start, ?_⟩
+  intro s hs c hcm
+  rw [rawOf_size] at hs ⊢
+  obtain ⟨id, hid, h⟩ := rawOf_get_lt d p hs
+  rw [h] at hcm
+  simp only [children, rawState, List.mem_append, List.mem_map, Option.mem_toList] at hcm
+  rcases hcm with ⟨e, he, rfl⟩ | hcm
+  · obtain ⟨t, ht, _, rfl⟩ := mem_edgesOf.1 he
+    exact ht
+  · split at hcm
+    · cases hcm
+    · cases hcm; exact idx_lt (hc.eoi_mem hid)
+
+end Logos.FromDfa
+
+namespace Logos.FromDfa
+open Logos Logos.Passes
+
+/-! ### a walk of the raw graph is a run of the DFA -/
+
+theorem rawOf_record (d : Dfa) (p : List Nat) {id : Nat} (hid : id ∈ getStates d) (pos : Nat) (ctx : Option Nat)
+    (tokEnd : Nat) :
+    record ((rawOf d p).get ((getStates d).idxOf id)) pos ctx tokEnd = dfaRecord (d.acc p id) pos ctx tokEnd := by
+  simp only [record, rawOf_early, rawOf_accept d p hid, dfaRecord, Dfa.acc]
+  cases acceptOf p (d.matchingOf id) <;> rfl
+
+theorem rawOf_atEoi {d : Dfa} (hc : Closed d) (p : List Nat) (isPrefix : Bool) (start : Nat) :
+    ∀ (fuel : Nat) {id : Nat}, id ∈ getStates d → ∀ (pos : Nat) (ctx : Option Nat) (tokEnd : Nat),
+      atEoi (rawOf d p) isPrefix start fuel ((getStates d).idxOf id) pos ctx tokEnd =
+        dfaAtEoi d p isPrefix start fuel id pos ctx tokEnd := by
+  intro fuel
+  induction fuel with
+  | zero => intro id _ pos ctx tokEnd; rfl
+  | succ fuel ih =>
+    intro id hid pos ctx tokEnd
+    simp only [atEoi, dfaAtEoi]
+    have h1 : (!((rawOf d p).get ((getStates d).idxOf id)).normal.isEmpty ||
+        ((rawOf d p).get ((getStates d).idxOf id)).eoi.isSome) = (d.hasByteEdge id || d.eoiId id != 0) := by
+      rw [rawOf_normal_isEmpty hc p hid, rawOf_eoi d p hid]
+      simp only [Dfa.hasByteEdge, Bool.not_not]
+      congr 1
+      by_cases he : d.eoiId id = 0 <;> simp [he]
+    have h2 : ((getStates d).idxOf id == (rawOf d p).root) = (id == d.start) := by
+      rw [rawOf_root, Bool.eq_iff_iff]
+      simp only [beq_iff_eq]
+      exact ⟨fun h => idx_inj hid hc.start h, fun h => by rw [h]⟩
+    rw [h1, h2, rawOf_eoi d p hid]
+    by_cases he : d.eoiId id = 0
+    · simp [he]
+    · have hm := hc.eoi_mem hid
+      simp only [beq_iff_eq, he, if_false]
+      rw [rawOf_record d p hm, ih hm]
+
+/-- **a walk of the raw graph is a run of the DFA** -/
+theorem rawOf_walk {d : Dfa} (hc : Closed d) (p : List Nat) (isPrefix : Bool) (start : Nat) :
+    ∀ (rest : List Nat), (∀ b ∈ rest, b < 256) → ∀ {id : Nat}, id ∈ getStates d →
+      ∀ (pos : Nat) (ctx : Option Nat) (tokEnd : Nat),
+      walk (rawOf d p) isPrefix start ((getStates d).idxOf id) rest pos ctx tokEnd =
+        dfaWalk d p isPrefix start id rest pos ctx tokEnd := by
+  intro rest
+  induction rest with
+  | nil =>
+    intro _ id hid pos ctx tokEnd
+    simp only [walk, dfaWalk]
+    rw [rawOf_record d p hid, rawOf_size, rawOf_atEoi hc p isPrefix start _ hid]
+  | cons b rest ih =>
+    intro hb id hid pos ctx tokEnd
+    have hb256 : b < 256 := hb b (List.mem_cons_self)
+    simp only [walk, dfaWalk]
+    rw [rawOf_record d p hid, rawOf_next hc p hid hb256]
+    by_cases hz : d.nextId id b = 0
+    · simp [hz]
+    · simp only [beq_iff_eq, hz, if_false]
+      exact ih (fun x hx => hb x (List.mem_cons_of_mem _ hx)) (hc.next_mem hid hb256) _ _ _
+
+theorem rawOf_walkAttempt {d : Dfa} (hc : Closed d) (p : List Nat) (isPrefix : Bool) (inp : List Nat)
+    (hb : ∀ b ∈ inp, b < 256) (start : Nat) :
+    walkAttempt (rawOf d p) isPrefix inp start = dfaAttempt d p isPrefix inp start := by
+  unfold walkAttempt dfaAttempt
+  rw [rawOf_root, rawOf_walk hc p isPrefix start _ (fun b h => hb b (List.mem_of_mem_drop h)) hc.start]
+
+/-! ### from the DFA to the final graph -/
+
+/-- the part of `rawSideOK` that depends on the DFA: the start state and its successors match nothing (no
+empty match), a state whose successors all report leaf `l` also reports it at the end of the input, the
+target of an end-of-input transition has no end-of-input transition to a live state -/
+def dfaSideOK (d : Dfa) (p : List Nat) : Bool :=
+  closedB d && rawRootOK (rawOf d p) && earlyEoiOK (rawOf d p) && rawClosed (rawOf d p)
+
+theorem dfaSideOK_raw {d : Dfa} {p : List Nat} (h : dfaSideOK d p = true) : rawSideOK (rawOf d p) = true := by
+  simp only [dfaSideOK, Bool.and_eq_true] at h
+  simp only [rawSideOK, Bool.and_eq_true]
+  exact ⟨⟨⟨⟨rawOf_noEarly d p, h.1.1.2⟩, h.1.2⟩, h.2⟩, rawOf_edgesDisjoint d p⟩
+
+/-- **Tokens: what the final graph yields is what the DFA yields.** -/
+theorem fromDfa_matched {d : Dfa} {p : List Nat} (h : dfaSideOK d p = true) (inp : List Nat)
+    (hb : ∀ b ∈ inp, b < 256) (start l e : Nat) (hm : dfaAttempt d p false inp start = .matched l e) :
+    walkAttempt (passes (rawOf d p)) false inp start = .matched l e := by
+  have hc : Closed d := closedB_sound (by simp only [dfaSideOK, Bool.and_eq_true] at h; exact h.1.1.1)
+  apply passes_matched _ (sideOK_of_raw _ (dfaSideOK_raw h)) inp hb
+  rw [rawOf_walkAttempt hc p false inp hb start]; exact hm
+
+/-- **Errors stay errors and stop no later than the DFA's dead state.** -/
+theorem fromDfa_nomatch {d : Dfa} {p : List Nat} (h : dfaSideOK d p = true) (inp : List Nat)
+    (hb : ∀ b ∈ inp, b < 256) (start off : Nat) (hm : dfaAttempt d p false inp start = .nomatch off) :
+    ∃ off', off' ≤ off ∧ walkAttempt (passes (rawOf d p)) false inp start = .nomatch off' := by
+  have hc : Closed d := closedB_sound (by simp only [dfaSideOK, Bool.and_eq_true] at h; exact h.1.1.1)
+  apply passes_nomatch _ (sideOK_of_raw _ (dfaSideOK_raw h)) inp hb
+  rw [rawOf_walkAttempt hc p false inp hb start]; exact hm
+
+theorem fromDfa_eoi {d : Dfa} {p : List Nat} (h : dfaSideOK d p = true) (inp : List Nat)
+    (hb : ∀ b ∈ inp, b < 256) (start : Nat) (hm : dfaAttempt d p false inp start = .eoi) :
+    walkAttempt (passes (rawOf d p)) false inp start = .eoi := by
+  have hc : Closed d := closedB_sound (by simp only [dfaSideOK, Bool.and_eq_true] at h; exact h.1.1.1)
+  apply passes_eoi _ (sideOK_of_raw _ (dfaSideOK_raw h)) inp hb
+  rw [rawOf_walkAttempt hc p false inp hb start]; exact hm
+
+end Logos.FromDfa
